@@ -30,6 +30,8 @@ CONSTANTS Users,               \* user names the client may try
           ProbeAuthenticates,  \* TRUE = a PK_OK probe marks the session authenticated
           PinsUser,            \* FALSE = username comparison dropped
           PartialCounts,       \* TRUE = partial successes counted as failures
+          ProbeFailCounts,     \* FALSE = a rejected UNSIGNED publickey probe ("is this key acceptable?" - key not acceptable) is
+                               \* answered with a FAILURE built by hand that bypasses _send_auth_result: not counted, no cap
           CapOffset            \* disconnect at FailCap + CapOffset failures
 
 GssMethods == {"gssapi-with-mic", "gssapi-keyex"}
@@ -97,6 +99,7 @@ CapMessages == LET u == Primary   v == CHOOSE x \in Users : x # u   sv == "ssh-c
   {[Rq(u, sv, "none") EXCEPT !.cb = "fail"], [Rq(u, sv, "password") EXCEPT !.cb = "partial"],
    [Rq(u, sv, "password") EXCEPT !.cb = "ok", !.change = TRUE],
    [Rq(u, sv, "publickey") EXCEPT !.cb = "ok", !.sig = "corrupt"], [Rq(u, sv, "publickey") EXCEPT !.cb = "ok", !.sig = "absent"],
+   [Rq(u, sv, "publickey") EXCEPT !.cb = "fail", !.sig = "absent"],       \* unsigned probe, key rejected: a failed attempt
    [Rq(u, sv, "keyboard-interactive") EXCEPT !.cb = "query"], [Blank EXCEPT !.k = "info_response", !.cb = "fail"],
    [Rq(v, sv, "none") EXCEPT !.cb = "ok"], [Rq(u, sv, "none") EXCEPT !.cb = "ok"],
    [Blank EXCEPT !.k = "rekey", !.tok = "client"], [Blank EXCEPT !.k = "service_request", !.service = "ssh-userauth"]}
@@ -206,7 +209,10 @@ UserauthRequest(c, s, q) ==
                     res == IF cached THEN "ok" ELSE q.cb
                     c1  == IF cached THEN <<>> ELSE <<Cb("publickey", q.user, q.cb)>>
                     s2  == [s1 EXCEPT !.offer = FALSE] IN
-                IF res = "fail" THEN SendResult(s2, c1, "fail")
+                \* a rejected key is a failed attempt whether the request was signed or was an unsigned probe: both go
+                \* through _send_auth_result (counter, cap)
+                IF res = "fail" THEN (IF q.sig = "absent" /\ ~ProbeFailCounts THEN Ans(s2, c1, <<"FAILURE">>)
+                                      ELSE SendResult(s2, c1, "fail"))
                 ELSE IF q.sig = "absent"
                   THEN Ans([s2 EXCEPT !.authenticated = ProbeAuthenticates, !.offer = TRUE], c1, <<"PK_OK">>)
                 ELSE IF CodeVerifies(q, s.rekeyed) \/ KeepsResultAfterBadSig THEN SendResult(s2, c1, res)
